@@ -369,6 +369,12 @@ def run_ascii(ctx):
             cells = outline(kind, n)
             full = {c: rng.choice(LABELS) for c in cells}
             res = A.write(kind, full, f"complete-{n}")
+            if kind == "third":
+                # the hypotheses of third_write_read_id_partial, evaluated on armi's own complete third-core outline
+                hyp = (all(i <= n and i + j <= n and j <= n and i + 2 * j >= 0 and _third_base(i + 2 * j)[0] <= i for i, j in cells)
+                       and (n, 0) in full and (n == 0 or (n - 1, 1) in full) and (n != 0 or all(j != 1 for _, j in cells)))
+                ctx.count("complete third-core outlines satisfying the hypotheses of third_write_read_id_partial" if hyp else
+                          "complete third-core outlines OUTSIDE the hypotheses of third_write_read_id_partial")
             if res and res[0] != "ok":
                 ctx.fail(f"ascii-complete-map-not-drawn:{kind}", "a complete map without holes is drawn and reads back", {"kind": kind, "rings": n})
             if res and res[1]:
